@@ -73,6 +73,23 @@ func vfC04Run(cc *CallContext) error {
 	return nil
 }
 
+// vfC04Volume emits n INFO logs "v0".."v<n-1>", each followed by a DEBUG noise
+// log "noise<i>", then ends as vfC04Script.outcome says.
+func vfC04Volume(cc *CallContext, n int64) error {
+	vfEvents = append(vfEvents, VfEvent{What: "unary", Method: cc.Method})
+	for i := int64(0); i < n; i++ {
+		cc.ClientLog(LogInfo, fmt.Sprintf("v%d", i))
+		cc.ClientLog(LogDebug, fmt.Sprintf("noise%d", i))
+	}
+	switch vfC04Script.outcome {
+	case "rpcerr":
+		return &RpcError{Type: "ValueError", Message: "scripted rpc failure"}
+	case "panic":
+		panic("scripted unary panic")
+	}
+	return nil
+}
+
 // vfC04Sentinel is the ONE *RpcError value the "sent*" handlers return on every
 // call (the package-level-sentinel idiom). It is re-created at the start of each
 // execution so nothing a server writes into it leaks between executions.
@@ -80,6 +97,15 @@ var vfC04Sentinel *RpcError
 
 func vfC04Server() *Server {
 	s := NewServer()
+	Unary(s, "volval", func(ctx context.Context, cc *CallContext, p VfXParams) (int64, error) {
+		if err := vfC04Volume(cc, p.X); err != nil {
+			return 0, err
+		}
+		return p.X, nil
+	})
+	UnaryVoid(s, "volvoid", func(ctx context.Context, cc *CallContext, p VfXParams) error {
+		return vfC04Volume(cc, p.X)
+	})
 	Unary(s, "sentval", func(ctx context.Context, cc *CallContext, p VfXParams) (int64, error) {
 		vfEvents = append(vfEvents, VfEvent{What: "unary", Method: cc.Method})
 		if p.X > 0 {
@@ -459,5 +485,110 @@ func TestVerif_C04(t *testing.T) {
 			}
 		}
 		x.Outcome("%s|%v", mode, oc)
+	})
+
+	// Third space: log VOLUME. The statement has no bound on how many messages a
+	// handler may emit, so the count is a dimension of its own: every boundary
+	// value 2^k-1, 2^k, 2^k+1 up to 2^11+1 (quick) / 2^14+1 (thorough).
+	var volumes []int64
+	seen := map[int64]bool{}
+	for k := 0; k <= venum.QT(11, 14); k++ {
+		for _, d := range []int64{-1, 0, 1} {
+			if v := int64(1)<<k + d; v >= 0 && !seen[v] {
+				seen[v] = true
+				volumes = append(volumes, v)
+			}
+		}
+	}
+	type volOutcome struct{ name, method, class string }
+	volOutcomes := []volOutcome{{"value", "volval", "value"}, {"void", "volvoid", "void"}, {"rpcerr", "volval", "error"}, {"panic", "volvoid", "panic"}}
+	venum.Explore(t, venum.Cfg{Name: "log-volume", Shardable: true}, func(x *venum.X) {
+		nLogs := volumes[x.Choose(len(volumes), "log-count")]
+		tr := transports[x.Choose(len(transports), "transport")]
+		oc := volOutcomes[x.Choose(len(volOutcomes), "outcome")]
+		reqLevel := []LogLevel{"", LogInfo}[x.Choose(2, "requested-level(absent|INFO)")]
+		vfC04Script.logs, vfC04Script.outcome = nil, oc.name
+		vfResetEvents()
+		x.Note("%s handler emits %d INFO logs interleaved with %d DEBUG logs, requested=%q outcome=%s", tr, nLogs, nLogs, reqLevel, oc.name)
+		s := vfC04Server()
+		kv := []string{MetaRequestID, "rv"}
+		if reqLevel != "" {
+			kv = append(kv, MetaLogLevel, string(reqLevel))
+		}
+		req := vfXReq(oc.method, nLogs, kv...)
+		var body []byte
+		var pan any
+		if tr == "pipe" {
+			body, _, pan = vfServePipe(s, req)
+		} else {
+			rec, p := vfArrowPost(NewHttpServer(s), "/"+oc.method, req)
+			body, pan = rec.Body.Bytes(), p
+		}
+		base := "C04:" + tr + ":" + oc.class + ":log-volume:"
+		if pan != nil {
+			x.Failf(base+"panic-escaped", "panic escaped dispatch: %v", pan)
+			x.Outcome("panic")
+			return
+		}
+		streams, _, perr := vfParseStreams(body)
+		if perr != nil || len(streams) != 1 {
+			x.Failf(base+"unparseable", "response: %d streams, parse error %v", len(streams), perr)
+			x.Outcome("unparseable")
+			return
+		}
+		// reference: with INFO requested only the v<i> survive, otherwise v0,noise0,v1,...
+		want := func(i int) string {
+			if reqLevel == LogInfo {
+				return fmt.Sprintf("INFO:v%d", i)
+			}
+			if i%2 == 0 {
+				return fmt.Sprintf("INFO:v%d", i/2)
+			}
+			return fmt.Sprintf("DEBUG:noise%d", i/2)
+		}
+		wantN := int(nLogs)
+		if reqLevel == "" {
+			wantN = 2 * int(nLogs)
+		}
+		gotN, firstBad := 0, -1
+		nRes, nExc := 0, 0
+		last := ""
+		ridBad := 0
+		for _, b := range streams[0].Batches {
+			k := vfC04Kind(b)
+			last = k
+			switch k {
+			case "log":
+				if firstBad < 0 && (gotN >= wantN || b.MV(MetaLogLevel)+":"+b.MV(MetaLogMessage) != want(gotN) || nRes+nExc > 0) {
+					firstBad = gotN
+				}
+				if b.MV(MetaRequestID) != "rv" {
+					ridBad++
+				}
+				gotN++
+			case "result":
+				nRes++
+			case "exception":
+				nExc++
+				if b.MV(MetaRequestID) != "rv" {
+					ridBad++
+				}
+			}
+		}
+		if firstBad < 0 && gotN < wantN {
+			firstBad = gotN
+		}
+		if firstBad >= 0 {
+			x.Failf(base+"logs-lost-or-reordered", "handler emitted %d qualifying logs, response carries %d; first deviation at log #%d (expected %s)", wantN, gotN, firstBad, want(firstBad))
+		}
+		if ridBad > 0 {
+			x.Failf(base+"request-id", "%d log/exception batches do not echo the request id", ridBad)
+		}
+		ok := (oc.class == "value" || oc.class == "void") && nRes == 1 && nExc == 0 && last == "result"
+		ok = ok || ((oc.class == "error" || oc.class == "panic") && nRes == 0 && nExc == 1 && last == "exception")
+		if !ok {
+			x.Failf(base+"result-or-exception", "outcome %s: %d result / %d exception batches, last=%s", oc.name, nRes, nExc, last)
+		}
+		x.Outcome("%s|%s|logs=%d|res=%d|exc=%d", tr, oc.name, gotN, nRes, nExc)
 	})
 }
